@@ -263,8 +263,15 @@ impl Grid {
 /// bytes arriving on the master side are fed to the same grid.
 pub struct Pty {
     pub master: std::os::fd::OwnedFd,
+    /// a third descriptor of the slave side, used only to send synchronisation marks
+    pub sync: std::fs::File,
     pub bytes: u64,
 }
+
+/// Sent through the slave side before the master side is read: the kernel hands pty data over
+/// asynchronously, the tty keeps the order, so everything written before the mark has arrived
+/// once the mark has (the grid ignores SGR sequences; the library never emits this one).
+const PTY_MARK: &[u8] = b"\x1b[7777m";
 
 pub struct TermState {
     pub pty: Option<Pty>,
@@ -277,6 +284,8 @@ pub struct TermState {
     pub n_queries: u64,
     pub flushes: u64,
     pub failed_calls: u64,
+    /// failed calls per simulated thread (the thread that made the call)
+    pub failed_by_tid: std::collections::BTreeMap<usize, u64>,
     pub fault: FaultPlan,
     /// index of the harness-level API call in progress (set by the driver)
     pub cur_op: u64,
@@ -319,6 +328,7 @@ impl SimTerm {
                 n_queries: 0,
                 flushes: 0,
                 failed_calls: 0,
+                failed_by_tid: Default::default(),
                 fault: FaultPlan::default(),
                 cur_op: 0,
                 tab_seen: None,
@@ -358,12 +368,13 @@ impl SimTerm {
             libc::fcntl(std::os::fd::AsRawFd::as_raw_fd(&master), libc::F_SETFL, fl | libc::O_NONBLOCK);
         }
         let slave2 = slave.try_clone().ok()?;
+        let sync = slave.try_clone().ok()?;
         let term = console::Term::read_write_pair(slave2, slave);
         if !term.is_term() {
             return None;
         }
         let t = SimTerm::new(w, h);
-        t.lock().pty = Some(Pty { master, bytes: 0 });
+        t.lock().pty = Some(Pty { master, sync, bytes: 0 });
         Some((t, term))
     }
 
@@ -377,13 +388,37 @@ impl SimTerm {
         };
         let mut got = Vec::new();
         let mut buf = [0u8; 4096];
+        {
+            use std::io::Write;
+            let p = s.pty.as_mut().unwrap();
+            if p.sync.write_all(PTY_MARK).and_then(|_| p.sync.flush()).is_err() {
+                s.xcheck_error = Some("pty: cannot write the synchronisation mark".into());
+                return;
+            }
+        }
+        let deadline = std::time::Instant::now() + std::time::Duration::from_secs(20);
         loop {
             // SAFETY: reading into a local buffer from a descriptor we own
             let n = unsafe { libc::read(fd, buf.as_mut_ptr() as *mut libc::c_void, buf.len()) };
-            if n <= 0 {
+            if n > 0 {
+                got.extend_from_slice(&buf[..n as usize]);
+            }
+            if got.len() >= PTY_MARK.len() && got.windows(PTY_MARK.len()).any(|w| w == PTY_MARK) {
                 break;
             }
-            got.extend_from_slice(&buf[..n as usize]);
+            if n <= 0 {
+                if std::time::Instant::now() > deadline {
+                    s.xcheck_error = Some("pty: the synchronisation mark did not arrive within 20 s".into());
+                    return;
+                }
+                let mut pfd = libc::pollfd { fd, events: libc::POLLIN, revents: 0 };
+                // SAFETY: polling a descriptor we own
+                unsafe { libc::poll(&mut pfd, 1, 50) };
+            }
+        }
+        // take the mark out again
+        while let Some(i) = got.windows(PTY_MARK.len()).position(|w| w == PTY_MARK) {
+            got.drain(i..i + PTY_MARK.len());
         }
         if got.is_empty() {
             return;
@@ -482,6 +517,7 @@ impl SimTerm {
             }
             if failed {
                 s.failed_calls += 1;
+                *s.failed_by_tid.entry(tid).or_insert(0) += 1;
                 let kinds = [
                     io::ErrorKind::Other,
                     io::ErrorKind::BrokenPipe,
